@@ -25,6 +25,18 @@ CHECKS = {
  "C08": dict(technique="deterministic simulation: two-step replacement histories with exact before/after oracle; real MOF files through the simulated file seam",
              text="Histories of two consecutive operations under a scripted random seam: identity replacement (term-free copy) on structures that carry their own typed terms and on the repository's real MOF files (atoms, charges, groups and term tuple sets must be unchanged), A->B->A site substitution with absent elements (multiset of element/position mod lattice restored), replace-all-then-search-again (no occurrence on original atoms remains).",
              note="A->B->A asserted for non-overlapping occurrences certified within atol/(2K^2); tolerance 1e-9 for single atoms, placement bound otherwise.", ref="5/C08"),
+ "C09": dict(technique="deterministic simulation: model-based stateful histories over a pool of Atoms objects with durable restarts and injected write faults",
+             text="Seeded operation histories (construct in 3 idioms, copy, subset, delete, pop, extend default/mapped/repeated, overlay extension, replicate, translate, save->simulated disk->reload) over 2-5 objects sharing a world configuration; after every step every involved object is compared with a trivial reference model through the abstraction function (every type id resolved through its tables) plus independent structural invariants, every uninvolved object must be bit-identical (aliasing), and every restart is inspected by an independent strict LAMMPS-data reader. Fault configurations inject ENOSPC/EIO/lost and torn writes with the narrow oracle 'raised, object unchanged, clean retry succeeds'.",
+             note="Histories are sampled, not enumerated. Elements are not compared across LAMMPS restarts (C14). Objects of one world agree per kind on having coefficient tables.", ref="5/C09"),
+ "C10": dict(technique="deterministic simulation (history-only): refinement of every delete/pop transition against the reference model, local exhaustive subset fan-out",
+             text="Short generated histories produce the representation a deletion is applied to; random deletions in every container, pop()/pop(i), and for every object with <= 6 atoms every non-empty subset (every listing order for <= 3 indices) are applied to copies and compared index-wise with the model (survivors' data and order, surviving terms with type resolution and extra fields).",
+             note="No fault/schedule/random dimension exists for this property; only the operation history and the reference model are simulation ingredients (weakest fit, stated in DESIGN).", ref="5/C10"),
+ "C11": dict(technique="deterministic simulation (history-only): refinement of every extend transition against the reference model, local exhaustive identity-map fan-out",
+             text="Short generated histories then extensions: default merge, identity maps, repeated extension with extend_types offsets, self-extension, overlays that re-define terms on the same atoms forwards/backwards/permuted, emptied kinds, empty objects, extra columns; for every ordered pair of small objects every injective partial identity map is applied to copies; results compared with the model (order of atoms, re-typed mapped atoms, re-targeted terms, coefficient text or type classes, supersession, '.'-filled columns).",
+             note="Same caveat as C10: no fault/random dimension. Table-less kinds compared by type partition, not id values.", ref="5/C11"),
+ "C12": dict(technique="deterministic simulation (history-only): refinement of every replicate transition against the reference model + crystal-equality check",
+             text="Objects with any term kinds (incl. impropers), extra columns and cells of every family (incl. arbitrarily rotated) are replicated with unequal factors; result compared with the model's images (read off in the result's own block order or matched by position), cell rows a*A,b*B,c*C, folded fractional coordinates reproduce the original crystal a*b*c times, original bit-identical, (1,1,1) identity.",
+             note="Same caveat as C10.", ref="5/C12"),
 }
 
 NOT_APPLICABLE = [
